@@ -3,7 +3,7 @@
    The C++ tokenizer/parser (extern/filereaderlp) is an oracle, not modelled: the theorems
    are about the writer's conventions, the reader's conversion (cylp.pyx) and the text wrapper. *)
 From Coq Require Import List ZArith NArith QArith Qcanon Bool Arith.
-From Dimod Require Import Base.Util Model.Poly Model.LP Model.LPTok Model.ChkC12 Proofs.LPFacts Proofs.LPTokFacts.
+From Dimod Require Import Base.Util Model.Poly Model.LP Model.LPTok Model.LPRead Model.ChkC12 Gen.Gen_LP Proofs.LPFacts Proofs.LPTokFacts Proofs.LPReadFacts.
 Import ListNotations.
 Open Scope Qc_scope.
 
@@ -133,6 +133,42 @@ Theorem C12_lp_model_text_roundtrip :
       Forall2 (fun a b => forall s, holds (snd a) s <-> holds (snd b) s) (q_cons c') (q_cons c).
 Proof. exact lp_model_text_roundtrip. Qed.
 Print Assumptions C12_lp_model_text_roundtrip.
+
+(* ================================================================== *)
+(* labels against the reader's tokenizer; alphabet, keyword, delimiter and single-character tables are
+   GENERATED from dimod/lp.py, extern/filereaderlp/reader.cpp and def.hpp (Gen/Gen_LP.v) *)
+
+(* among the labels dump accepts, exactly the `safe` ones (no leading line-discarding character, no
+   inf/nan prefix, not a section keyword; for a variable also not free / infinity) are read back as
+   the identifier that was written - for every label, of any length *)
+Theorem C12_label_readable_iff :
+  forall r s, validate_label (Some s) = true ->
+    (reader_reads_label r s = true <-> label_safe r s = true).
+Proof. exact label_readable_iff. Qed.
+Print Assumptions C12_label_readable_iff.
+
+Theorem C12_reader_reads_safe_labels :
+  forall r s, validate_label (Some s) = true -> label_safe r s = true -> reader_reads_label r s = true.
+Proof. exact reader_reads_safe_labels. Qed.
+Print Assumptions C12_reader_reads_safe_labels.
+
+(* the open findings (KNOWN_FINDINGS: lp_label_semicolon / keyword / infnan), stated against the tables
+   of the sources: "every accepted label is read back" is false *)
+Theorem C12_validator_accepts_unreadable_refuted :
+  (validate_label (Some [59; 97]%N) = true /\ reader_reads_label AsConstraint [59; 97]%N = false) /\
+  (validate_label (Some [115; 116]%N) = true /\ reader_reads_label AsVariable [115; 116]%N = false) /\
+  (validate_label (Some [66; 105; 110]%N) = true /\ reader_reads_label AsConstraint [66; 105; 110]%N = false) /\
+  (validate_label (Some [105; 110; 102; 111]%N) = true /\ reader_reads_label AsVariable [105; 110; 102; 111]%N = false) /\
+  (validate_label (Some [78; 97; 110; 99; 121]%N) = true /\ reader_reads_label AsVariable [78; 97; 110; 99; 121]%N = false) /\
+  (validate_label (Some [102; 114; 101; 101]%N) = true /\ reader_reads_label AsVariable [102; 114; 101; 101]%N = false /\
+   reader_reads_label AsConstraint [102; 114; 101; 101]%N = true).
+Proof. exact validator_accepts_unreadable_refuted. Qed.
+Print Assumptions C12_validator_accepts_unreadable_refuted.
+
+Theorem C12_wrap_constants_match_source :
+  WRAP_BREAK = [NL; SP] /\ WRAP_BREAK_LINE_LEN = 1%nat /\ TARGET = TARGET_LINE_LEN.
+Proof. exact wrap_constants_match_source. Qed.
+Print Assumptions C12_wrap_constants_match_source.
 
 (* ================================================================== *)
 (* hypotheses are satisfiable on non-trivial data *)
